@@ -18,10 +18,21 @@ fn rand_key(rng: &mut Rng, phon: bool) -> (u16, u8) {
     (code_for_char(c).unwrap(), if rng.chance(10) { 2 } else { 0 })
 }
 
+/// "the session flag tells the truth": a call that leaves no session ongoing must not offer anything
+fn flag_check(rep: &mut Report, o: &Obs, ongoing: bool, ctx: serde_json::Value) {
+    if ongoing { return; }
+    let offers = match o {
+        Obs::Full { cands, pres, aux, .. } => !aux.is_empty() || cands.iter().any(|c| !c.is_empty()) || pres.iter().any(|p| p.as_deref().map(|x| !x.is_empty()).unwrap_or(false)),
+        Obs::Single { text, pre, .. } => !text.is_empty() || pre.as_deref().map(|x| !x.is_empty()).unwrap_or(false),
+        _ => false,
+    };
+    if offers { rep.violation("C06", "offer-without-session", format!("a key returned {:?} but no session is ongoing", render_obs(o, ongoing)), ctx); }
+}
+
 fn history(s: &mut Sess, t: &mut Trace, rng: &mut Rng, phon: bool, n: usize, rep: &mut Report, ctxv: &dyn Fn(&Sess) -> serde_json::Value) {
     for _ in 0..n {
         let r = rng.below(100);
-        if r < 72 { let (k, m) = rand_key(rng, phon); s.key(t, k, m, 0); }
+        if r < 72 { let (k, m) = rand_key(rng, phon); let o = s.key(t, k, m, 0); let on = s.imp.ongoing(); flag_check(rep, &o, on, ctxv(s)); }
         else if r < 90 {
             let before = s.imp.ongoing();
             let o = s.backspace(t, rng.chance(10));
@@ -59,7 +70,7 @@ pub fn run(env: &Env) -> Report {
             let hl = 2 + rng.below(14);
             history(&mut a, &mut t, &mut rng, phon, hl, &mut rep, &ctxv);
             // make sure something is being composed, then terminate
-            if !a.imp.ongoing() { let n = 1 + rng.below(5); for _ in 0..n { let (k, m) = rand_key(&mut rng, phon); a.key(&mut t, k, m, 0); } }
+            if !a.imp.ongoing() { let n = 1 + rng.below(5); for _ in 0..n { let (k, m) = rand_key(&mut rng, phon); let o = a.key(&mut t, k, m, 0); let on = a.imp.ongoing(); flag_check(&mut rep, &o, on, ctxv(&a)); } }
             let term = rng.below(4);
             let mut terminated = true;
             match term {
@@ -88,6 +99,19 @@ pub fn run(env: &Env) -> Report {
             if !terminated { continue; }
             rep.count(["term-commit", "term-finish", "term-ctrl-backspace", "term-backspaces"][term]);
             if a.imp.ongoing() { rep.violation("C06", "session-after-terminating-event", format!("ongoing after terminating event {}", term), ctxv(&a)); }
+            // keys pressed while idle that compose nothing (no value in the layout, or a value the engine drops — a sign
+            // without independent form in a vowel-forming position, Probhat AltGr+d) must leave the context idle AND clean:
+            // the comparison with a fresh context below starts after them
+            if !phon && rng.chance(30) {
+                for _ in 0..1 + rng.below(2) {
+                    let c = *rng.pick(&['d', 'd', 'x', 'q', 'f', '1']);
+                    let o = a.key(&mut t, code_for_char(c).unwrap(), 2, 0);
+                    let on = a.imp.ongoing();
+                    flag_check(&mut rep, &o, on, ctxv(&a));
+                    if on { a.finish(&mut t); }
+                }
+                rep.count("idle-keys-before-fresh");
+            }
             // continuation, replayed in a fresh context over a copy of the user directory
             let xdg_b = env.scratch.join(format!("{}-b", case));
             copy_dir(&user_dir(&xdg), &user_dir(&xdg_b));
